@@ -1118,6 +1118,17 @@ def np_round(eng, st, args, kwargs):
     yield map1(eng, st, args[0], rnd, 'real'), st
 
 
+@lib('numpy.isclose')
+def np_isclose(eng, st, args, kwargs):
+    """np.isclose(a, b, rtol=1e-05, atol=1e-08) on finite scalars: |a - b| <= atol + rtol * |b| (arrays / equal_nan are outside the model)"""
+    if len(args) < 2 or arr_of(eng, st, args[0]) is not None or arr_of(eng, st, args[1]) is not None or 'equal_nan' in kwargs:
+        raise OutOfSubset('np.isclose outside the scalar form')
+    rtol = kwargs.get('rtol', args[2] if len(args) > 2 else 1e-05)
+    atol = kwargs.get('atol', args[3] if len(args) > 3 else 1e-08)
+    a, b = to_real(to_num(args[0])), to_real(to_num(args[1]))
+    yield le(absv(sub(a, b)), add(atol, mul(rtol, absv(b)))), st
+
+
 @lib('numpy.ravel')
 def np_ravel(eng, st, args, kwargs):
     a = arr_of(eng, st, args[0])
